@@ -71,6 +71,8 @@ def snapshot(dc, aspects=None):
         # accessible linked attributes: values of every externally derivable component
         ext = {}
         for cid in getattr(d, 'externally_derivable_components', {}):
+            if cid.parent is None or cid.parent is d:
+                continue        # not an attribute of another dataset (targets of the dataset's own derived-component links show up here too)
             try:
                 ext[(cid.parent.label if cid.parent is not None else None, cid.label)] = _num(d[cid])
             except Exception as e:
